@@ -413,3 +413,62 @@ Print Assumptions C03_cdb_compiled_is_lpm.
 Theorem C03_declared_subnets_nets : forall rs m, Spec.ClientLocation.declared_subnets rs m = Model.Accum.file_nets rs m.
 Proof. exact declared_subnets_nets. Qed.
 Print Assumptions C03_declared_subnets_nets.
+
+(* ==================================================================================
+   C03 on the RocksDB database compiled from the PREPROCESSED text (cmd/dnsrocks-preproc: Codec.Preprocess,
+   SubnetRanger.OpenScanner turns the % lines into per-map ! range-point lines; the preprocessed text is
+   what the compiler then reads).  For a file f that passes both well-formedness predicates
+   (Proofs.Preproc.wf_file of C09 and Proofs.FileLevel.wf_file of C01/C03), has no ! line of its own,
+   whose subnets pass C03's guard per map (file_subnets_wfb: outside F20) and whose values are small:
+   the preprocessor succeeds, and on EVERY RocksDB compilation (builder or batches, any setting, any
+   schedule, v1 or v2 keys, the point lines in any order) of the preprocessed text, listed,
+   GetLocationByMap is longest-prefix match over the subnets f's OWN % lines declare for that map
+   (file_nets (parsed f) m, as in C03_rdb_compiled_is_lpm_closed) - the database-contents hypothesis
+   of C03_rdb_driver_is_lpm holds for it.
+   Composition: C09_preproc_same_db_closed / C07 (preprocessed_facts), bridge A (the records of the scanned
+   lines in C09's formulation = line records of FileLevel.conv_line ++ range points of Rearrange ++ feature;
+   Proofs/LinkPreprocLpm.v records_split), bridge B (store_holds_points), C03_rdb_driver_is_lpm.
+   ================================================================================== *)
+From DnsV Require Import Model.Text Model.Preproc.
+From DnsV Require Import Proofs.LinkDiffText Proofs.LinkPreprocRearranger Proofs.LinkPreprocDiff Proofs.LinkPreprocDiffExample.
+From DnsV Require Import Proofs.LinkPreprocLpm Proofs.LinkPreprocLpmExample.
+
+Theorem C03_preprocessed_rdb_is_lpm : forall o,
+  (forall a, wf_bytes a -> length a = 16%nat -> o_parse_ip o (o_print_ip o a) = Some a) ->
+  o_parse_ip o [] = None ->
+  (forall a, Model.Quote.contains 44 (o_print_ip o a) = false) ->
+  forall sort, sort_spec sort ->
+  forall v2 serial pserial, serial <= max32 -> pserial = serial \/ pserial = 0 ->
+  forall f, Proofs.Preproc.wf_file o serial f -> file_subnets_wfb o serial f = true ->
+  Proofs.FileLevel.wf_file o serial f = true -> no_rp_lines o serial f = true ->
+  kvs_ok (records bytes (convert_ln o v2 serial) (text_accum o v2 serial (rearrange_total sort)) (features v2) (scan f)) ->
+  exists body points,
+    rearrange_text sort (Proofs.LinkPreprocRearranger.file_nets o serial f) = Ok points /\
+    preprocess o (rearrange_total sort) pserial f = Ok (body ++ map (marshal o) points) /\
+    forall pts, Permutation pts points ->
+      let out := body ++ map (marshal o) pts in
+      forall (db : store) dbl,
+        rdb_compilation bytes (convert_ln o v2 serial) (text_accum o v2 serial (rearrange_total sort)) (features v2) (scan out) db ->
+        lists_store dbl db ->
+        rdb_holds_points sort (Model.Accum.file_nets (Proofs.FileLevel.parsed o serial f)) dbl /\
+        forall m a bits ones plen, a < two128 -> client_plen a bits ones plen ->
+          rdb_get_location dbl m (mkClient (Some a) bits ones) =
+          Ok (lpm_result (lpm (Model.Accum.file_nets (Proofs.FileLevel.parsed o serial f) m)
+                              (fam (clean_mask a plen)) (clean_mask a plen) plen)).
+Proof. exact preprocessed_rdb_is_lpm. Qed.
+Print Assumptions C03_preprocessed_rdb_is_lpm.
+
+(* non-vacuity: the two-map file  %ab,,m1 / Z... / %cd,,m2 / +www...  (toy address oracle, all library
+   premises proved) passes every guard; on every RocksDB compilation (v2 keys) of its preprocessed text
+   the client 10.0.0.1 gets location ab in map m1 and location cd in map m2 *)
+Example C03_preprocessed_rdb_example :
+  exists body points,
+    preprocess x_o x_R 0 x_B = Ok (body ++ map (marshal x_o) points) /\
+    forall pts, Permutation pts points ->
+      forall (db : store) dbl,
+        rdb_compilation bytes x_conv x_acc x_feat (scan (body ++ map (marshal x_o) pts)) db ->
+        lists_store dbl db ->
+        rdb_get_location dbl (109, 49) (mkClient (Some x_client) 32 32) = Ok (Some [97; 98], 96) /\
+        rdb_get_location dbl (109, 50) (mkClient (Some x_client) 32 32) = Ok (Some [99; 100], 96).
+Proof. exact preprocessed_lpm_example. Qed.
+Print Assumptions C03_preprocessed_rdb_example.
